@@ -8,6 +8,8 @@ import itertools
 import numpy as np
 from hypothesis import strategies as st
 
+from mv import hperm
+
 from mv import gen_geom, geom, mf, ref_match
 from mv.quiet import silenced
 
@@ -28,7 +30,7 @@ def derived_replacement(draw, pat, kinds=None):
     elif kind == "disjoint":
         keep = []
     else:
-        keep = sorted(draw(st.sets(st.integers(0, n - 1), min_size=0 if n == 1 else 1, max_size=n)))
+        keep = sorted(draw(st.sets(hperm.integers(0, n - 1), min_size=0 if n == 1 else 1, max_size=n)))
     rpos = [spos[i].copy() for i in keep]
     rels = [sels[i] for i in keep]
     src = list(keep)                     # which search atom each replacement atom is identical to (or None)
@@ -36,22 +38,22 @@ def derived_replacement(draw, pat, kinds=None):
     if kind != "identical":
         # element change at the same coordinates (H -> F style): not shared
         for i in dropped:
-            if draw(st.integers(0, 3)) == 0:
+            if draw(hperm.integers(0, 3)) == 0:
                 rpos.append(spos[i].copy())
                 # often the one-/two-letter partner with the same first letter (Cl -> C, Na -> N, C -> Co ...)
                 partners = [e for e in ["C", "Cl", "Co", "N", "Na", "S", "Si"] if e != sels[i] and e[0] == sels[i][0]]
                 rels.append(draw(st.sampled_from(partners * 3 + [e for e in gen_geom.ALPHABET + ["F"] if e != sels[i]])))
                 src.append(None)
-            elif draw(st.integers(0, 5)) == 0:
+            elif draw(hperm.integers(0, 5)) == 0:
                 # almost-shared: same element, moved by >= 1e-3 -> must be treated as a different atom
                 d = draw(gen_geom.unit_vector()) * draw(st.sampled_from([1e-3, 1e-2, 0.2]))
                 rpos.append(spos[i] + d)
                 rels.append(sels[i])
                 src.append(None)
-        nnew = {"smaller": 0, "equal": len(dropped) and 1, "larger": draw(st.integers(1, 3)),
-                "disjoint": draw(st.integers(1, 3))}[kind]
+        nnew = {"smaller": 0, "equal": len(dropped) and 1, "larger": draw(hperm.integers(1, 3)),
+                "disjoint": draw(hperm.integers(1, 3))}[kind]
         for _ in range(nnew):
-            base = spos[draw(st.integers(0, n - 1))]
+            base = spos[draw(hperm.integers(0, n - 1))]
             r = draw(st.sampled_from([0.9, 1.5, 2.5, 4.0]))
             p = base + draw(gen_geom.unit_vector()) * r
             for _ in range(50):
@@ -63,7 +65,7 @@ def derived_replacement(draw, pat, kinds=None):
             src.append(None)
     if not rpos:
         return {"pos": [], "els": [], "shared": {}, "kind": "empty"}
-    order = list(draw(st.permutations(range(len(rpos)))))
+    order = list(draw(hperm.permutations(range(len(rpos)))))
     rpos = [rpos[i] for i in order]
     rels = [rels[i] for i in order]
     src = [src[i] for i in order]
@@ -78,7 +80,7 @@ def payload(draw, sels):
     els = sorted(set(sels))
     type_elements, type_labels, type_masses = [], [], []
     for e in els:
-        k = draw(st.integers(1, 2))
+        k = draw(hperm.integers(1, 2))
         for j in range(k):
             type_elements.append(e)
             type_labels.append("%s_%s" % (e, "ab"[j]))
@@ -89,7 +91,7 @@ def payload(draw, sels):
         atom_types.append(draw(st.sampled_from(cands)))
     N = len(sels)
     charges = [round(0.001 * (i + 1), 6) * (-1 if i % 2 else 1) for i in range(N)]
-    groups = [draw(st.integers(0, 3)) for _ in range(N)]
+    groups = [draw(hperm.integers(0, 3)) for _ in range(N)]
     return {"atom_types": atom_types, "type_elements": type_elements, "type_labels": type_labels,
             "type_masses": type_masses, "charges": charges, "groups": groups}
 
@@ -127,7 +129,7 @@ def replace_case(draw, repl_kinds=None, fractions=True, with_hints=True, max_cop
     if with_payload:
         case["payload"] = draw(payload(case["sels"]))
     case["rcharges"] = [round(R_TAG0 + 0.01 * j, 6) for j in range(len(rp["pos"]))]
-    case["rgroups"] = [draw(st.integers(4, 6)) for _ in range(len(rp["pos"]))]
+    case["rgroups"] = [draw(hperm.integers(4, 6)) for _ in range(len(rp["pos"]))]
     return case
 
 
